@@ -37,6 +37,11 @@ package updown
 //@     invariant !failed(w)
 //@   loop 5:
 //@     invariant !failed(w)
+//@   # C08 output (--table): one row per reported neighbour: query, bin name, SNP distance, target
+//@   after call:Write#2: assert [row.same] result == results[range_i1] && neighbour == result.same.catchment[range_i] && written(w)[len(written(w))-1] == result.qname + "," + "same" + "," + itoa(neighbour.distance) + "," + neighbour.tname + "\n"
+//@   after call:Write#3: assert [row.up] neighbour == result.up.catchment[range_i] && written(w)[len(written(w))-1] == result.qname + "," + "up" + "," + itoa(neighbour.distance) + "," + neighbour.tname + "\n"
+//@   after call:Write#4: assert [row.down] neighbour == result.down.catchment[range_i] && written(w)[len(written(w))-1] == result.qname + "," + "down" + "," + itoa(neighbour.distance) + "," + neighbour.tname + "\n"
+//@   after call:Write#5: assert [row.side] neighbour == result.side.catchment[range_i] && written(w)[len(written(w))-1] == result.qname + "," + "side" + "," + itoa(neighbour.distance) + "," + neighbour.tname + "\n"
 //@   ensures [c19] implies(result == nil, !failed(w))
 
 //@ spec posOf(k int) int uninterpreted
